@@ -573,11 +573,86 @@ def gen_buckets(rng):
     return {"kind": "buckets", "cls": cls, "ops": ops}
 
 
+def gen_open(rng):
+    """OPEN class hierarchy (round 6, seed C01-l): classes of timed objects defined DURING the history, after queries
+    have already been made (`type(name, (parent,), {})` of a random timed class or of an earlier new class), instances
+    of them added, and the class / interval / neighbour queries asked for their ancestors, for None and for the new
+    classes themselves.  Judged by the oracle alone (isinstance / type on the registered objects): the class tables of
+    the Lean model are closed, so these cases send no requests to the driver.
+    class reference: a name of partitura.score, or an int k = the k-th class defined by the history; None = no class"""
+    base = rng.sample(NOTEISH, 2) + rng.sample(DIRS, 2) + rng.sample(OTHERS, 2)
+    known = list(base)          # class references usable so far
+    nnew = 0
+    nobj = 0
+    ops = []
+    tpool = sorted(rng.sample(range(0, 12), rng.randint(2, 5)))
+
+    def anc_of(c):
+        return ["anc", c, rng.randrange(0, 4)]      # the j-th timed ancestor of c (clamped), resolved at run time
+
+    def qref():
+        x = rng.random()
+        c = rng.choice(known)
+        if x < 0.5:
+            return anc_of(c)
+        if x < 0.75:
+            return c
+        if x < 0.9:
+            return None
+        return "TimedObject"
+
+    def query():
+        x = rng.random()
+        if x < 0.6 or nobj == 0:
+            b = sorted(rng.sample(tpool + [0, 13], 2))
+            return ["all", qref(), rng.random() < 0.75, rng.choice(["starting", "ending"]),
+                    b[0] if rng.random() < 0.3 else None, b[1] if rng.random() < 0.3 else None]
+        return [rng.choice(["prev", "next"]), rng.choice(tpool), qref(), rng.random() < 0.5, rng.random() < 0.75]
+
+    for c in rng.sample(base, 3):
+        s = rng.choice(tpool)
+        ops.append(["add", c, s, rng.choice([None, s + rng.randint(0, 4)])])
+        nobj += 1
+    for _ in range(rng.randint(2, 30)):
+        x = rng.random()
+        if x < 0.2:
+            par = rng.choice(known)
+            if rng.random() < 0.85:
+                # a query for an ancestor of the parent BEFORE the class exists (a memo of the family would be filled)
+                q = query()
+                q[1 if q[0] == "all" else 2] = rng.choice([anc_of(par), par, None])
+                q[2 if q[0] == "all" else 4] = True
+                ops.append(q)
+            ops.append(["new", par])
+            known.append(nnew)
+            if rng.random() < 0.9:
+                s = rng.choice(tpool)
+                ops.append(["add", nnew, s, rng.choice([None, s, s + rng.randint(1, 4)])])
+                nobj += 1
+            nnew += 1
+        elif x < 0.4:
+            s = rng.choice(tpool)
+            y = rng.random()
+            ops.append(["add", rng.choice(known), s if y < 0.85 else None,
+                        (s + rng.randint(0, 4)) if y < 0.5 or y >= 0.85 else None])
+            nobj += 1
+        elif x < 0.5 and nobj:
+            ops.append(["rm", rng.randrange(nobj), rng.choice(["start", "end", "both", "both"])])
+        else:
+            ops.append(query())
+    ops.append(["all", None, True, "starting", None, None])
+    ops.append(["all", "TimedObject", True, "ending", None, None])
+    return {"kind": "openclass", "cls": [], "ops": ops}
+
+
 def cases(rng, tier):
     n = {"quick": 300, "thorough": 20000, "search": 6000}.get(tier, 300)
     for _ in range(n):
-        if rng.random() < 0.07:
+        x = rng.random()
+        if x < 0.07:
             yield gen_buckets(rng)
+        elif x < 0.13:
+            yield gen_open(rng)
         else:
             yield gen_history(rng, tier)
 
@@ -1264,10 +1339,136 @@ def evaluate_buckets(desc):
                                               "nops": len(desc["ops"])})
 
 
+def evaluate_open(desc):
+    """histories that define new classes of timed objects while they run (see gen_open).  ORACLE only, independent of
+    the code's own subclass enumeration: an object matches a class query iff `type(o) is cls` (exact), `isinstance(o,
+    cls)` (subclasses included) or always (cls None); registered = what this function itself added and did not remove.
+    Clauses: query (iter_all: exactly the registered matching objects whose start/end lies in [start, end), each once,
+    times non-decreasing), neighbour (iter_prev / iter_next: exactly the registered matching objects starting before /
+    after the point, eq = at it too; times monotone), backref, raises."""
+    import partitura.score as S
+
+    part = S.Part("P0", quarter_duration=1)
+    newc = []
+    objs = []       # [object, start, end] as registered by this function
+    oracle = []
+    br = {}
+    nq = 0
+
+    def cref(r):
+        if r is None:
+            return None
+        if isinstance(r, int):
+            return newc[r] if r < len(newc) else S.TimedObject
+        if isinstance(r, list):
+            c = cref(r[1])
+            line = [a for a in c.__mro__[1:] if issubclass(a, S.TimedObject)] or [c]
+            return line[min(r[2], len(line) - 1)]
+        return getattr(S, r)
+
+    def match(o, c, incl):
+        return c is None or (isinstance(o, c) if incl else type(o) is c)
+
+    def name(c):
+        return None if c is None else c.__name__
+
+    for opi, op in enumerate(desc["ops"]):
+        k = op[0]
+        br[k] = br.get(k, 0) + 1
+        fails = []
+        try:
+            if k == "new":
+                par = cref(op[1])
+                # the class is defined AFTER its ancestors (and None) have been queried in this very history, so the
+                # case does not depend on what earlier cases of the process asked (replays run in a fresh process)
+                scratch = S.Part("scratch", quarter_duration=1)     # never empty: the per-point iterators do run
+                scratch.add(_mk(S.TimedObject), 0, 1)
+                for a in [None] + [a for a in par.__mro__ if issubclass(a, S.TimedObject)]:
+                    for md in ("starting", "ending"):
+                        list(part.iter_all(a, include_subclasses=True, mode=md))
+                        list(scratch.iter_all(a, include_subclasses=True, mode=md))
+                    if a is not None:
+                        list(scratch.first_point.iter_next(a, eq=True, include_subclasses=True))
+                        list(scratch.last_point.iter_prev(a, eq=True, include_subclasses=True))
+                    if a is not None and part.first_point is not None:
+                        list(part.first_point.iter_next(a, eq=True, include_subclasses=True))
+                        list(part.last_point.iter_prev(a, eq=True, include_subclasses=True))
+                newc.append(type("Open%d" % len(newc), (par,), {}))
+            elif k == "add":
+                o = _mk(cref(op[1]))
+                part.add(o, op[2], op[3])
+                objs.append([o, op[2], op[3]])
+            elif k == "rm":
+                if op[1] < len(objs):
+                    r = objs[op[1]]
+                    w = op[2]
+                    if (w == "start" and r[1] is None) or (w == "end" and r[2] is None) or (r[1] is None and r[2] is None):
+                        continue     # removing what is not there: outside the histories of this kind
+                    if w == "both" and (r[1] is None or r[2] is None):
+                        w = "start" if r[2] is None else "end"
+                    part.remove(r[0], w)
+                    if w in ("start", "both"):
+                        r[1] = None
+                    if w in ("end", "both"):
+                        r[2] = None
+            elif k == "all":
+                c = cref(op[1])
+                incl, mode, lo, hi = op[2], op[3], op[4], op[5]
+                if lo is not None and hi is not None and lo > hi:
+                    continue
+                res = list(part.iter_all(c, lo, hi, include_subclasses=incl, mode=mode))
+                sd = 1 if mode == "starting" else 2
+                want = [r for r in objs if r[sd] is not None and match(r[0], c, incl)
+                        and (lo is None or r[sd] >= lo) and (hi is None or r[sd] < hi)]
+                nq += 1 if want else 0
+                if sorted(map(id, res)) != sorted(id(r[0]) for r in want):
+                    fails.append("query: iter_all(%s, %r, %r, include_subclasses=%r, mode=%r) returned %d objects %r, "
+                                 "the registered matching objects are %d %r" % (
+                                     name(c), lo, hi, incl, mode, len(res), sorted(type(o).__name__ for o in res),
+                                     len(want), sorted(type(r[0]).__name__ for r in want)))
+                ts = [(o.start if sd == 1 else o.end).t for o in res if (o.start if sd == 1 else o.end) is not None]
+                if ts != sorted(ts):
+                    fails.append("query: iter_all results are not in time order: %r" % ts)
+            elif k in ("prev", "next"):
+                tp = part.get_point(op[1])
+                c = cref(op[2])
+                if tp is None or c is None:
+                    continue
+                eq, incl = op[3], op[4]
+                res = list((tp.iter_prev if k == "prev" else tp.iter_next)(c, eq=eq, include_subclasses=incl))
+                t0 = op[1]
+                want = [r for r in objs if r[1] is not None and match(r[0], c, incl)
+                        and ((r[1] < t0 if k == "prev" else r[1] > t0) or (eq and r[1] == t0))]
+                nq += 1 if want else 0
+                if sorted(map(id, res)) != sorted(id(r[0]) for r in want):
+                    fails.append("neighbour: iter_%s(%s, eq=%r, include_subclasses=%r) from t=%d returned %d objects %r, "
+                                 "the registered matching objects are %d %r" % (
+                                     k, name(c), eq, incl, t0, len(res), sorted(type(o).__name__ for o in res),
+                                     len(want), sorted(type(r[0]).__name__ for r in want)))
+                ts = [o.start.t for o in res if o.start is not None]
+                if ts != sorted(ts, reverse=(k == "prev")):
+                    fails.append("neighbour: iter_%s results are not in time order: %r" % (k, ts))
+        except Exception as e:  # noqa
+            fails.append("raises: %s: %s on valid arguments" % (type(e).__name__, e))
+        for o, s_, e_ in objs:
+            if (None if o.start is None else o.start.t) != s_ or (None if o.end is None else o.end.t) != e_:
+                fails.append("backref: a %s registered at (%r, %r) refers to (%r, %r)" % (
+                    type(o).__name__, s_, e_, None if o.start is None else o.start.t, None if o.end is None else o.end.t))
+                break
+        for f in fails:
+            if len(oracle) < 12:
+                oracle.append("%s [op %d %r]" % (f, opi, op))
+    key = ("O|%r" % (desc["ops"],)) if nq and newc else None
+    return Eval([], [], oracle, key, {"branches": {"open:" + a: b for a, b in br.items()}, "valid": True,
+                                      "strict": True, "nops": len(desc["ops"])})
+
+
 def evaluate(desc):
     warnings.filterwarnings("ignore")
     if desc.get("kind") == "buckets":
         return evaluate_buckets(desc)
+    if desc.get("kind") == "openclass":
+        return evaluate_open(desc)
     cx = Ctx(desc)
     bk = Book(len(cx.objs))
     S = cx.S
@@ -1610,7 +1811,7 @@ def shrink(desc):
         if size == 1:
             break
         size //= 2
-    if desc.get("kind") == "buckets":
+    if desc.get("kind") in ("buckets", "openclass"):
         return
     # drop the trailing objects no operation mentions
     used = [op[1] for op in ops if op[0] in ("add", "rm", "rmx", "addd")]
@@ -1645,8 +1846,9 @@ def distribution(descs, results):
     strs = Counter()
     views = Counter()
     mag["registry (bucket) cases"] = sum(1 for d in descs if d.get("kind") == "buckets")
+    mag["open class hierarchy cases"] = sum(1 for d in descs if d.get("kind") == "openclass")
     for d in descs:
-        if d.get("kind") == "buckets":
+        if d.get("kind") in ("buckets", "openclass"):
             continue
         qs = [op[2] for op in d["ops"] if op[0] == "qd"] + ([d["q0"]] if d["q0"] is not None else [])
         ts = [v for op in d["ops"] if op[0] in ("add", "qd", "goa", "gp") for v in op[1:4]
